@@ -42,8 +42,14 @@ CLAIMED = {
                  'of task sections, every completion order of bodies and timers, every topological launch order and cancellation of '
                  'the caller at any point, while the run is pending the deadlock / lost-wake-up state is unreachable '
                  '(C02_plain_no_stuck_state, from the inductive invariant PInv: every blocked waiter\'s predicate is false, the '
-                 'launcher has created tasks for a prefix of the launch order, nobody is cancelled). Partial for switch / one-of / '
-                 'recurrent shapes: there the exact deadlock verdict of the stepping loop is compared with the model on every '
+                 'launcher has created tasks for a prefix of the launch order, nobody is cancelled). Proof (pipelines with switches, on '
+                 'the model): for every program that satisfies LiveP (switches only — nested, shared cases, cases computed before the '
+                 'decision; collaborators that may raise but do not suspend; the executable check livePB implies it and is evaluated '
+                 'on every generated program), in every state reached before chart.run returns some task is runnable or a body / '
+                 'timer is outstanding, under every interleaving, completion order and admissible launch order '
+                 '(C02_switch_no_stuck_state, from the invariant Struct: no lost wake-up through switch nodes). For all programs: '
+                 'a finishing node and a returning switch wake every consumer. Partial for one-of / '
+                 'recurrent shapes and suspending collaborators in switch pipelines: there the exact deadlock verdict of the stepping loop is compared with the model on every '
                  'explored trace and the past deadlocks are regression programs, and random walks through the model\'s own schedule space '
                  '(all interleavings, not only asyncio\'s FIFO order) look for stuck model states on the graphs the real builder '
                  'produces — but stuck-freedom is not a theorem there.', '§6 C02'),
